@@ -19,15 +19,22 @@ def check_tiles(job):
     from toasty import toast
     from toasty.pyramid import Pos
 
-    positions, planetary, python_route = job
+    positions, first_planetary, python_route = job
     part = Part()
-    csn = "planetary" if planetary else "astronomical"
-    cs = cs_of(planetary)
 
     def bad(clause, detail, cfg):
-        part.violation("%s/coordsys=%s" % (clause, csn), "%r: %s" % (cfg, detail), cfg)
+        part.violation("%s/coordsys=%s" % (clause, cfg["coordsys"]), "%r: %s" % (cfg, detail), cfg)
 
-    for (n, x, y) in positions:
+    # both coordinate systems alternate inside one process, in both orders (see C04)
+    half = len(positions) // 2
+    work = []
+    for k, p in enumerate(positions):
+        order = (first_planetary, not first_planetary) if k < half or len(positions) == 1 else (not first_planetary, first_planetary)
+        for planetary in order:
+            work.append((p, planetary))
+    for (n, x, y), planetary in work:
+        csn = "planetary" if planetary else "astronomical"
+        cs = cs_of(planetary)
         cfg = {"pos": (n, x, y), "coordsys": csn}
         part.case(nontrivial=True, n=1)
         t = toast.create_single_tile(Pos(n, x, y), coordsys=cs)
@@ -77,8 +84,51 @@ def check_tiles(job):
                 bad("python-route/tile-count", "filtered descent yielded %d tiles" % cnt, cfg)
             elif tg.angdist(py, got).max() > 1e-9:
                 bad("python-route/disagrees-with-compiled-grid", "max offset %.3g rad" % tg.angdist(py, got).max(), cfg)
-    part.sample({"coordsys": csn, "tiles": positions[:3], "pixels_per_tile": 65536})
+    part.sample({"coordsys": "both, alternating", "tiles": positions[:3], "pixels_per_tile": 65536})
     return part
+
+
+def depth0(part):
+    """The level-0 tile through the public sampling route: the grid handed to the sampler at depth 0
+    is the centres of the 65 536 level-8 tiles."""
+    from toasty import toast
+    from toasty.pyramid import PyramidIO
+    from vt.fixtures import scratch, quiet
+
+    for planetary in (False, True):
+        csn = "planetary" if planetary else "astronomical"
+        cfg = {"pos": (0, 0, 0), "coordsys": csn}
+        part.case(nontrivial=True)
+        seen = {}
+
+        def sampler(lon, lat):
+            seen["g"] = (np.array(lon), np.array(lat))
+            return np.zeros(lon.shape, dtype=np.float32) + 1
+
+        with scratch("c05") as d:
+            try:
+                with quiet():
+                    toast.sample_layer(PyramidIO(d, default_format="npy"), sampler, 0, coordsys=cs_of(planetary), parallel=1)
+            except Exception as e:
+                part.violation("depth0/raises:%s/coordsys=%s" % (type(e).__name__, csn), "%r: %r" % (cfg, e), cfg)
+                continue
+        if "g" not in seen:
+            part.violation("depth0/no-grid/coordsys=%s" % csn, "%r: the sampler was never called" % (cfg,), cfg)
+            continue
+        got = tg.vec(*seen["g"])
+        ref = tg.pixel_grid(0, 0, 0, planetary)
+        dmax = tg.angdist(got, ref).max()
+        part.count("pixels_compared", 65536)
+        if got.shape != ref.shape or dmax > 1e-9:
+            part.violation("depth0/grid-differs-from-level8-tile-centres/coordsys=%s" % csn, "%r: max offset %.3g rad" % (cfg, dmax), cfg)
+
+
+def _c05job(j):
+    if j[0] == "depth0":
+        p = Part()
+        depth0(p)
+        return p
+    return check_tiles(j)
 
 
 def run(tier, seed):
@@ -90,27 +140,31 @@ def run(tier, seed):
         "against reference centres of the tiles 8 levels deeper; Python-route descent for depth <= %d; every tile is non-trivial"
         % (d, nlat, 1 if tier == "quick" else 2)
     )
-    rep.assumptions = ["the compiled helper is exercised as built (Cython unavailable: .pyx edits cannot be rebuilt)", "depth 0 is covered in C06"]
+    rep.assumptions = ["the compiled helper is exercised as built (Cython unavailable: .pyx edits cannot be rebuilt)", "depth 0 is reached through sample_layer(depth=0) with a recording sampler"]
     jobs = []
-    for planetary in (False, True):
-        allp = [(n, x, y) for n in range(1, d + 1) for y in range(2**n) for x in range(2**n)]
-        lat = [p for p in lattice(nlat) if p[0] > d]
-        pr = [(1, x, y) for y in range(2) for x in range(2)]
-        if tier == "thorough":
-            pr += [(2, x, y) for y in range(4) for x in range(4)]
-        for p in pr:
-            jobs.append(([p], planetary, True))
-        both = allp + lat
-        k = 8
-        for i in range(k):
-            jobs.append((both[i::k], planetary, False))
-    par.pmap(check_tiles, jobs, rep)
+    allp = [(n, x, y) for n in range(1, d + 1) for y in range(2**n) for x in range(2**n)]
+    lat = [p for p in lattice(nlat) if p[0] > d]
+    pr = [(1, x, y) for y in range(2) for x in range(2)]
+    if tier == "thorough":
+        pr += [(2, x, y) for y in range(4) for x in range(4)]
+    for i, p in enumerate(pr):
+        jobs.append(([p], bool(i % 2), True))
+    both = allp + lat
+    k = 14
+    for i in range(k):
+        jobs.append((both[i::k], bool(i % 2), False))
+    jobs.append(("depth0",))
+    par.pmap(_c05job, jobs, rep)
     return rep.finish()
 
 
 def replay(payload):
     r = payload["replay"]
-    p = check_tiles(([tuple(r["pos"])], r["coordsys"] == "planetary", r["pos"][0] <= 1))
+    if tuple(r["pos"]) == (0, 0, 0):
+        p = Part()
+        depth0(p)
+    else:
+        p = check_tiles(([tuple(r["pos"])], r["coordsys"] == "planetary", r["pos"][0] <= 1))
     for sig, (detail, _) in p.violations.items():
         print("REPLAY-FAIL", sig, detail[:300])
     return 1 if p.violations else 0
